@@ -161,6 +161,7 @@ def configs(tier):
     for stages in (0, 1, 2, 3):
         out.append(dict(pins=1, aw=2, dw=8, stages=stages, driver="free"))
     out.append(dict(pins=1, aw=3, dw=16, stages=1, driver="free"))
+    out.append(dict(pins=1, aw=2, dw=8, stages=1, driver="free", elab_twice=True))
     # two pins: free driver over a thinned write alphabet in quick, complete in thorough
     if quick:
         out.append(dict(pins=2, aw=2, dw=8, stages=0, driver="conf", wvals=(0, 0xF, 0x6, 0x9, 0x1), pinv=(0, 1, 2, 3)))
